@@ -15,15 +15,10 @@ import lib
 
 
 def accept(P, rule, s):
-    try:
-        rule.parse_all(s)
-        return True
-    except P.ParseError:
-        return False
-    except P.GrammarError:
-        return "gerr"
-    except Exception as e:  # noqa
-        return "exc:" + type(e).__name__
+    """parse_all verdict; the request may be preceded by an abandoned / suspended listing or an attempt cut short by a foreign
+    exception on the same rule object (engine_corr.disturb_kind: a pure function of the text), which must not matter"""
+    import engine_corr as ec
+    return ec.accept_disturbed(P, rule, s)
 
 
 def run(ctx):
@@ -38,6 +33,27 @@ def run(ctx):
         bundled.load(m2)
     import pollute
     pollute.pollute(P)
+    # rules of the SAME NAME in other loaded bundled modules see every text first (parse, parse_all, a listing): whatever is
+    # remembered under a rule's name or printed form instead of under the rule object then answers for the wrong module
+    namesakes = {}
+    for mname in sorted({m for m1, _a, m2, _b in pairs for m in (m1, m2)} | {"rfc5322", "rfc3986", "rfc3339", "rfc5234"}):
+        try:
+            mod = bundled.load(mname)
+        except Exception:  # noqa
+            continue
+        for r in mod.Rule.rules():
+            namesakes.setdefault(r.name.lower(), []).append(r)
+
+    def prime(s, *rules):
+        for r in rules:
+            for other in namesakes.get(r.name.lower(), [])[:6]:
+                if other is r:
+                    continue
+                for call in (lambda: other.parse(s, 0), lambda: other.parse_all(s), lambda: list(other.lparse(s, 0))):
+                    try:
+                        call()
+                    except (P.ParseError, P.GrammarError, RecursionError):
+                        pass
     rng = random.Random(ctx.seed)
     sg = bundled.SentenceGen(P, rng, maxlen=80)
     per = ctx.budget(60, 1200)
@@ -67,6 +83,8 @@ def run(ctx):
                 cands.add(sg.mutate(sg.mutate(s)))
         bad = None
         for s in sorted(cands, key=lambda x: (len(x), x)):
+            if len(s) > 1 or s.isalnum():
+                prime(s, a, b)
             x = accept(P, a, s)
             y = accept(P, b, s)
             evals += 1
